@@ -45,7 +45,7 @@ def run_one(kind, prop, patch, keep=False, build=True):
                 return res
         ev = os.path.join(scratch, 'ev')
         os.makedirs(ev)
-        props = h.get('check', prop)
+        props = h.get('check', 'all' if kind == 'variants' else prop)
         c = subprocess.run([BIN, '-property', props, '-repo', tree, '-out', ev, '-known', '/dev/null', '-tier', 'quick'], env=ENV, capture_output=True, text=True)
         violated = []
         kinds = set()
@@ -101,7 +101,7 @@ def main():
             if props and prop not in props:
                 continue
             for patch in sorted(glob.glob(os.path.join(d, '*.patch'))):
-                if a.name and a.name not in os.path.basename(patch):
+                if a.name and not any(n in os.path.basename(patch) for n in a.name.split(',')):
                     continue
                 jobs.append((kind, prop, patch))
     if a.kind in ('seeded', 'all'):
